@@ -456,7 +456,7 @@ func numbers(c *explore.Ctx) {
 // ---- family: Decoder framing across buffer refills (32 KiB initial buffer, doubling)
 
 var refillFirst = []string{"plain", "backslash", "nonprint"}
-var refillLater = []string{`"plain"`, `"x\"y"`, `"x\\"`, "\"x\x7fy\"", `"é"`, "\"x\x01y\"", `"x\qy"`, `{"k\"":"v\\"}`, `"unterminated`}
+var refillLater = []string{`"plain"`, `"x\"y"`, `"x\\"`, "\"x\x7fy\"", `"é"`, "\"x\x01y\"", `"x\qy"`, `{"k\"":"v\\"}`, `"unterminated`, "true", "false", "null", "-12.5e+3", "fals", "nul", `["a",false,{"b":null}]`}
 
 func decoderRefill(c *explore.Ctx) {
 	first := c.Choose(len(refillFirst))
@@ -549,7 +549,8 @@ func nesting(c *explore.Ctx) {
 	} else if closeOK == 2 {
 		nClose++
 	}
-	doc := []byte(strings.Repeat(open, depth) + "0" + strings.Repeat(close_, nClose))
+	inner := []string{"0", "", "[]", "{}", `"s"`, "[ ]"}[c.Choose(6)]
+	doc := []byte(strings.Repeat(open, depth) + inner + strings.Repeat(close_, nClose))
 	if kind == 2 {
 		depth *= 2
 	}
@@ -557,9 +558,9 @@ func nesting(c *explore.Ctx) {
 	if depth <= 10001 {
 		consumers(c, doc)
 	}
-	c.Nontrivial(uint64(depth)<<8 | uint64(kind)<<4 | uint64(closeOK))
+	c.NontrivialStr("nest", fmt.Sprint(depth, kind, closeOK, inner))
 	c.Outcome(fmt.Sprintf("balanced=%v deep=%v", closeOK == 0, depth > 10000))
-	c.Case(map[string]any{"depth": depth, "open": open, "closers": nClose})
+	c.Case(map[string]any{"depth": depth, "open": open, "innermost": inner, "closers": nClose})
 }
 
 // Spec returns the C05 check.
@@ -573,7 +574,7 @@ func Spec() *explore.Spec {
 			{Name: "unicode-escapes", ShardDepth: 2, Body: unicodeEscapes, Doc: "\\uXXXX with every pair of hex-digit classes at every digit position, at every offset 0..18"},
 			{Name: "numbers", ShardDepth: 3, Body: numbers, Doc: "all strings up to length 6 over {- + 0 1 9 . e E} in 4 contexts"},
 			{Name: "decoder-refill", ShardDepth: 2, Body: decoderRefill, Doc: "streams longer than the Decoder's 32 KiB buffer: first-buffer content class x token class placed at every offset -12..+12 around the refill boundary x 3 stream shapes, framing compared with encoding/json"},
-			{Name: "nesting", ShardDepth: 2, Body: nesting, HangSeconds: 300, Doc: "nesting ladder 1..100000 x 4 container kinds x balanced / missing / surplus closer"},
+			{Name: "nesting", ShardDepth: 2, Body: nesting, HangSeconds: 300, Doc: "nesting ladder 1..100000 x 4 container kinds x 6 innermost values (scalar, nothing, empty containers with and without white space) x balanced / missing / surplus closer"},
 		},
 		Rule: "exhaustive enumeration of byte strings / token sequences over class alphabets plus complete single-deviation sweeps; distinct non-trivial = distinct valid documents (hashed) and sweep blocks",
 		Assumptions: []string{
